@@ -1,6 +1,64 @@
-import Model.GSync
-/-! # C01 (work in progress: invariant proof follows) -/
+import Lemmas.GSyncInv
+/-!
+# C01 — a Wait channel is never released while the count stayed above zero
+
+`run true (init true progs) sched` ranges over every client program (any number of goroutines,
+any calls) and every schedule of any length at the granularity of single atomic / mutex / close
+operations.  `zeroSeen s.sh r` is the exact judgement "the counter was zero at some instant
+between the start of the Wait that returned `r` and now"; the property's conservative judgement
+(lower bound of the count stayed > 0) can only fire when the exact one does.
+-/
 namespace GSync
+
+/-- C01.  A channel obtained from `Wait()` is observed closed only if the count was zero at some
+instant since that `Wait` call started — for every program and every schedule along which the
+callers do not drive the count negative. -/
+theorem wait_chan_closed_imp_zeroSeen (progs : List (List Call)) (sched : List Nat)
+    (hnn : NonNeg true (init true progs) sched) :
+    ∀ t ∈ (run true (init true progs) sched).threads, ∀ r ∈ t.recs,
+      isClosed (run true (init true progs) sched).sh r.ch = true →
+      zeroSeen (run true (init true progs) sched).sh r = true := by
+  intro t ht r hr hcl
+  have hinv := reachable_inv progs sched hnn
+  obtain ⟨i, hi⟩ := List.mem_iff_getElem?.1 ht
+  have hrec := (hinv.th i t hi).recs r hr
+  simp only [zeroSeen, decide_eq_true_eq]
+  rcases hrec.seen with h | ⟨hne, heq⟩
+  · exact h
+  · exfalso
+    simp only [isClosed, Bool.or_eq_true, beq_iff_eq, List.contains_iff_mem] at hcl
+    rcases hcl with h0 | hmem
+    · exact hne h0
+    · exact hinv.sh.wopen (by rw [← heq]; exact hne) (by rw [← heq]; exact hmem)
+
+/-- The same, for any reachable starting state (e.g. a group that is already in use). -/
+theorem wait_chan_closed_imp_zeroSeen_from (s : St) (hs : Inv s) (sched : List Nat)
+    (hnn : NonNeg true s sched) :
+    ∀ t ∈ (run true s sched).threads, ∀ r ∈ t.recs,
+      isClosed (run true s sched).sh r.ch = true → zeroSeen (run true s sched).sh r = true := by
+  intro t ht r hr hcl
+  have hinv := run_inv s sched hs hnn
+  obtain ⟨i, hi⟩ := List.mem_iff_getElem?.1 ht
+  have hrec := (hinv.th i t hi).recs r hr
+  simp only [zeroSeen, decide_eq_true_eq]
+  rcases hrec.seen with h | ⟨hne, heq⟩
+  · exact h
+  · exfalso
+    simp only [isClosed, Bool.or_eq_true, beq_iff_eq, List.contains_iff_mem] at hcl
+    rcases hcl with h0 | hmem
+    · exact hne h0
+    · exact hinv.sh.wopen (by rw [← heq]; exact hne) (by rw [← heq]; exact hmem)
+
+/-- Mutual exclusion of `Add`'s critical section, in every reachable state. -/
+theorem add_mutual_exclusion (progs : List (List Call)) (sched : List Nat)
+    (hnn : NonNeg true (init true progs) sched) (i j : Nat) (t u : Thread)
+    (hi : (run true (init true progs) sched).threads[i]? = some t)
+    (hj : (run true (init true progs) sched).threads[j]? = some u)
+    (hci : inCrit t.pc = true) (hcj : inCrit u.pc = true) : i = j := by
+  have hinv := reachable_inv progs sched hnn
+  have h1 := (hinv.th i t hi).mutex.1 hci
+  have h2 := (hinv.th j u hj).mutex.1 hcj
+  rw [h1] at h2; exact Option.some.inj h2
 
 /-- The algorithm at the pinned commit violates C01: two goroutines, 13 steps.  `A: Inc; Dec`,
 `B: Wait; Add(1); Add(2); Wait`.  A's Dec is preempted after its counter update; B's second
@@ -11,6 +69,16 @@ theorem legacy_violates_C01 :
       [0, 0, 0, 1, 1, 1, 1, 1, 1, 1, 1, 0, 0]
     ∃ t ∈ s.threads, ∃ r ∈ t.recs, isClosed s.sh r.ch = true ∧ zeroSeen s.sh r = false ∧
       0 < s.sh.count := by
+  decide
+
+/-- non-vacuity: under the current algorithm the hypotheses are met by a non-trivial reachable
+state: count 2, a waiter holding the open channel 1 (`A: Inc; Dec`, `B: Wait; Add 1; Add 2; Wait`,
+A's Inc complete, B's Wait and first Add complete). -/
+example :
+    let s := run true (init true [[.add 1, .add (-1)], [.wait, .add 1, .add 2, .wait]])
+      [0, 0, 0, 0, 1, 1, 1, 1, 1]
+    s.sh.count = 2 ∧ s.sh.wchan = 1 ∧
+      (∃ t ∈ s.threads, ∃ r ∈ t.recs, r.ch = 1 ∧ isClosed s.sh r.ch = false ∧ zeroSeen s.sh r = true) := by
   decide
 
 end GSync
